@@ -44,7 +44,7 @@ def cases(tier, seed, nlayers, nforce, rep):
     for k in range(nforce):
         labels, span = G.gen_labels(rng, tier)
         opts = G.gen_force_opts(rng, labels, span)
-        mode = "exact" if k % 2 else "float"
+        mode = "exact" if k % 2 and len(labels) <= 60 else "float"
         try:
             fl, lls, _, _ = I.run_force(labels, opts, mode)
         except RecursionError:
